@@ -30,6 +30,8 @@ From CF Require Import C12.Callbacks.
 From CF Require Import C12.Proofs_callbacks.
 From CF Require Import C12.History.
 From CF Require Import C12.Proofs_history.
+From CF Require Import C12.Alias.
+From CF Require Import C12.Proofs_alias.
 Open Scope Z_scope.
 
 (* Success means the image is in flash, byte for byte, at start * page_size — provided positive
@@ -393,3 +395,36 @@ Theorem C12_surviving_buffer_counter_refuted :
   zslice (t_flash (deliver hT tr)) 4 4 = [61;62;63;64] /\ t_oob (deliver hT tr) = false.
 Proof. exact surviving_counter_refuted. Qed.
 Print Assumptions C12_surviving_buffer_counter_refuted.
+
+(* ------------------------------------------------------------------ Wave 11: links that keep packet references *)
+
+(* Packets as heap cells, send = hand a cell id to the link.  If no cell is written after it was handed over
+   (alias_free), a link that keeps the reference in a one-slot queue and reads the cell only when the next packet is
+   offered / at the end transmits exactly what a link that serialises inside send_packet transmits — for every
+   sequence of writes and sends, every heap, every queued cell. *)
+Theorem C12_deferred_serialisation_equals_immediate : forall ops h s,
+  (forall j, s = Some j -> writes_to j ops = false) -> alias_free ops = true ->
+  run_def h s ops = take h s ++ run_imm h ops.
+Proof. exact deferred_eq_immediate. Qed.
+Print Assumptions C12_deferred_serialisation_equals_immediate.
+
+(* Cloader.upload_buffer allocates a new packet per chunk: for every buffer, page and address the frames a
+   reference-keeping link (the radio driver) serialises later are the frames of the model, so every theorem about
+   frames and flash content holds for such links too; and the objects handed over are pairwise distinct. *)
+Theorem C12_upload_packets_not_aliased : forall h tid page address buff,
+  run_def h None (ub_ops true (fst (upload_buffer tid page address buff))) = fst (upload_buffer tid page address buff) /\
+  cells_distinct (ub_ops true (fst (upload_buffer tid page address buff))) = true.
+Proof. exact upload_deferred_same. Qed.
+Print Assumptions C12_upload_packets_not_aliased.
+
+(* REFUTATION of one packet object reused for every chunk of a page (seeded change C12-k): invisible to a link that
+   serialises at once, but on a reference-keeping link a 26-byte page is transmitted as twice its second chunk. *)
+Theorem C12_reused_packet_object_refuted :
+  let frames := fst (upload_buffer 255 0 0 k_buff) in
+  length frames = 2%nat /\
+  run_def (fun _ => []) None (ub_ops true frames) = frames /\
+  run_def (fun _ => []) None (ub_ops false frames) = [nth 1 frames []; nth 1 frames []] /\
+  run_def (fun _ => []) None (ub_ops false frames) <> frames /\
+  alias_free (ub_ops false frames) = false.
+Proof. exact reused_packet_refuted. Qed.
+Print Assumptions C12_reused_packet_object_refuted.
